@@ -65,3 +65,21 @@ package odt
 //@     step a_row_spanning_cell_covers_all_its_columns_below: cell.RowSpan > 1 && cell.ColSpan >= 1 ==> forall k int :: {rowSpansRemaining[k]} colIdx - cell.ColSpan <= k && k < colIdx && k < colCount ==> rowSpansRemaining[k] == cell.RowSpan - 1
 //@   loop 5:
 //@     invariant 0 <= c && len(rowSpansRemaining) == entry(len(rowSpansRemaining)) && forall k int :: {rowSpansRemaining[k]} colIdx <= k && k < colIdx + c && k < colCount ==> rowSpansRemaining[k] == cell.RowSpan - 1
+
+// ---- C02: spans come from the document; one cell spans at most maxTableColumns columns and the cells of one row
+// together at most maxTableColumns plus one column per cell (so bookkeeping and rendering stay linear in the input) ----
+//@ func (*TableParser) parseCell results (res)
+//@   property C02
+//@   flags nosafety
+//@   ensures span_is_bounded: 1 <= res.ColSpan && res.ColSpan <= maxTableColumns && res.RowSpan >= 1
+//@   loop 0:
+//@     invariant parsed.ColSpan == entry(parsed.ColSpan) && parsed.RowSpan == entry(parsed.RowSpan)
+//@   loop 1:
+//@     invariant parsed.ColSpan == entry(parsed.ColSpan) && parsed.RowSpan == entry(parsed.RowSpan)
+//@ spec rec prefix func odtRowWidth(cells []ParsedTableCell, n int) int = n <= 0 ? 0 : odtRowWidth(cells, n - 1) + cells[n-1].ColSpan
+//@ func (*TableParser) parseRow results (res)
+//@   property C02
+//@   flags nosafety
+//@   ensures row_width_is_bounded: len(res.Cells) == len(row.Cells) && odtRowWidth(res.Cells, len(res.Cells)) <= maxTableColumns + len(res.Cells)
+//@   loop 0:
+//@     invariant len(parsed.Cells) == $i && width == odtRowWidth(parsed.Cells, len(parsed.Cells)) && 0 <= width && width <= maxTableColumns + $i
